@@ -15,5 +15,9 @@ func Point(label string) {}
 // Publish hands a value constructed inside production code to a harness.
 func Publish(name string, v any) {}
 
+// Lookup returns a value a harness published under name; nothing is ever
+// published without the verif build tag.
+func Lookup(name string) (any, bool) { return nil, false }
+
 // DurationOr returns def; the verif build lets the environment override it.
 func DurationOr(env string, def time.Duration) time.Duration { return def }
